@@ -203,7 +203,13 @@ fn main() {
                     }
                 }
             }
-            check(c, &cfg, &opt, &src, &dst, &inputs, embedded, ["generated", "generated", "not-listing-itself", "encrypted"][lfstyle as usize], damaged.as_deref());
+            // one case in sixteen rebuilds the archive onto its own path (after C07-r9m1): the result is judged like any other target
+            let in_place = idx % 16 == 9 && !opt.list_only;
+            if in_place {
+                c.count("rebuilds_onto_the_source_path", 1);
+            }
+            let dst_used = if in_place { &src } else { &dst };
+            check(c, &cfg, &opt, &src, dst_used, &inputs, embedded, ["generated", "generated", "not-listing-itself", "encrypted"][lfstyle as usize], damaged.as_deref());
             let _ = std::fs::remove_file(&src);
             let _ = std::fs::remove_file(&dst);
         });
